@@ -53,6 +53,11 @@ def main(argv):
     results = []
     harness_errors = []
     ctx = mp.get_context("spawn")
+    # one scratch directory per run, owned and removed by this process (multiprocessing children end in os._exit: their atexit hooks never run)
+    import tempfile, shutil, atexit
+    scratch = tempfile.mkdtemp(prefix="symx_run_")
+    os.environ["SYMX_SCRATCH"] = scratch
+    atexit.register(shutil.rmtree, scratch, True)
     with cf.ProcessPoolExecutor(max_workers=max(1, min(jobs, len(cfgs))), mp_context=ctx) as pool:
         futs = {pool.submit(H.worker, (modname, c)): c for c in cfgs}
         try:
